@@ -253,16 +253,29 @@ class SourceGenerator(NodeVisitor):
             else:
                 want_comma.append(True)
 
-        padding = [None] * (len(node.args) - len(node.defaults))
-        for arg, default in zip(node.args, padding + node.defaults):
+        posonly = getattr(node, "posonlyargs", [])
+        args = posonly + node.args
+        padding = [None] * (len(args) - len(node.defaults))
+        for idx, (arg, default) in enumerate(zip(args, padding + node.defaults)):
             write_comma()
             self.visit(arg)
             if default is not None:
                 self.write("=")
                 self.visit(default)
+            if idx + 1 == len(posonly):
+                self.write(", /")
         if node.vararg is not None:
             write_comma()
             self.write("*" + node.vararg.arg)
+        elif node.kwonlyargs:
+            write_comma()
+            self.write("*")
+        for arg, default in zip(node.kwonlyargs, node.kw_defaults):
+            write_comma()
+            self.visit(arg)
+            if default is not None:
+                self.write("=")
+                self.visit(default)
         if node.kwarg is not None:
             write_comma()
             self.write("**" + node.kwarg.arg)
